@@ -3,7 +3,7 @@
    `gosort` stands for Go's sort.Sort, bound only by [sort_contract]: given a comparator that is a
    strict weak order on the slice's elements it returns a permutation that sort.IsSorted accepts
    (nothing about stability).  wf_tx: every previous-outpoint hash is 32 bytes. *)
-From BU Require Import Lib.Bytes TxSort.TxSort TxSort.SortLib TxSort.TxSortProofs.
+From BU Require Import Lib.Bytes Gen.Kernels2 TxSort.TxSort TxSort.SortLib TxSort.TxSortProofs TxSort.TxSortTie.
 From Coq Require Import Permutation Sorted.
 
 (* the input comparator is: transaction id read as a big-endian number, then output index *)
@@ -32,6 +32,21 @@ Theorem C18_lex_lt_char : forall a b,
 Proof. exact lex_lt_char. Qed.
 Print Assumptions C18_lex_lt_char.
 
+(* the same two statements for the machine transliterations of the two Less bodies (Gen/Kernels2.v,
+   regenerated from the Go AST on every run); the input one also says that the transliterated body ends
+   normally - no index of the reversal loop leaves the 32-byte arrays.  i, j are the slice positions *)
+Theorem C18_translated_in_less_is_spec : forall a b i j, wf_in a -> wf_in b ->
+  exists r, Kernels2.sortableInputSlice_Less (in_hash a) (in_hash b) (in_index a) (in_index b) i j = Ok r /\
+            (r = true <-> id_num a < id_num b \/ (id_num a = id_num b /\ in_index a < in_index b)).
+Proof. exact translated_in_less_is_spec. Qed.
+Print Assumptions C18_translated_in_less_is_spec.
+
+Theorem C18_translated_out_less_is_spec : forall a b i j,
+  Kernels2.sortableOutputSlice_Less (out_value a) (out_value b) (out_script a) (out_script b) i j = true <->
+  (out_value a < out_value b)%Z \/ (out_value a = out_value b /\ lex_lt (out_script a) (out_script b)).
+Proof. exact translated_out_less_is_spec. Qed.
+Print Assumptions C18_translated_out_less_is_spec.
+
 (* both comparators are strict weak orders: what sort.Sort requires *)
 Theorem C18_less_strict_weak_orders :
   (forall l, Forall wf_in l -> swo_on l in_less) /\ (forall l, swo_on l out_less).
@@ -53,6 +68,12 @@ Theorem C18_is_sorted_iff : forall tx, wf_tx tx -> (is_sorted tx = true <-> bip6
 Proof. exact is_sorted_iff. Qed.
 Print Assumptions C18_is_sorted_iff.
 
+(* ... and exactly for the transactions whose order Sort keeps *)
+Theorem C18_is_sorted_iff_sort_fixes : forall g1, sort_contract g1 -> forall next tx, wf_tx tx ->
+  (is_sorted tx = true <-> keyseq (sort_tx g1 next tx) = keyseq tx).
+Proof. exact sorted_iff_fixed. Qed.
+Print Assumptions C18_is_sorted_iff_sort_fixes.
+
 (* idempotence: the result is sorted; sorting again (with any conforming sorter) or sorting a sorted
    transaction leaves the key sequence as it is *)
 Theorem C18_sort_idempotent : forall g1 g2, sort_contract g1 -> sort_contract g2 -> forall next next' tx, wf_tx tx ->
@@ -61,6 +82,19 @@ Theorem C18_sort_idempotent : forall g1 g2, sort_contract g1 -> sort_contract g2
   (is_sorted tx = true -> keyseq (sort_tx g1 next tx) = keyseq tx).
 Proof. exact sort_idempotent. Qed.
 Print Assumptions C18_sort_idempotent.
+
+(* idempotence on the elements themselves (not only their keys) whenever equal keys mean equal elements;
+   without that premise sort.Sort, which is not stable, may order elements of equal key differently on
+   a second pass, and only the key sequence is fixed *)
+Theorem C18_sort_idempotent_elements : forall g1 g2, sort_contract g1 -> sort_contract g2 -> forall next next' tx, wf_tx tx ->
+  ((forall a b, In a (map snd (tx_in tx)) -> In b (map snd (tx_in tx)) -> in_key a = in_key b -> a = b) ->
+   map snd (tx_in (sort_tx g2 next' (sort_tx g1 next tx))) = map snd (tx_in (sort_tx g1 next tx)) /\
+   (is_sorted tx = true -> map snd (tx_in (sort_tx g1 next tx)) = map snd (tx_in tx))) /\
+  ((forall a b, In a (map snd (tx_out tx)) -> In b (map snd (tx_out tx)) -> out_key a = out_key b -> a = b) ->
+   map snd (tx_out (sort_tx g2 next' (sort_tx g1 next tx))) = map snd (tx_out (sort_tx g1 next tx)) /\
+   (is_sorted tx = true -> map snd (tx_out (sort_tx g1 next tx)) = map snd (tx_out tx))).
+Proof. exact sort_idempotent_elems. Qed.
+Print Assumptions C18_sort_idempotent_elements.
 
 (* Sort only allocates: every object of the result is new (id >= allocation counter, pairwise distinct),
    so none is an object of the argument; the argument itself is a value the function only reads *)
@@ -83,6 +117,16 @@ Theorem C18_inplace_same_order : forall g1 g2, sort_contract g1 -> sort_contract
    map snd (tx_out (inplace_sort g1 tx)) = map snd (tx_out (sort_tx g2 next tx))).
 Proof. exact inplace_same_order. Qed.
 Print Assumptions C18_inplace_same_order.
+
+(* InPlaceSort itself: other fields identical; the argument's own (object, pointee) pairs permuted, inputs
+   among the inputs and outputs among the outputs; BIP69 order; accepted by IsSorted *)
+Theorem C18_inplace_perm_sorted : forall g1, sort_contract g1 -> forall tx, wf_tx tx ->
+  let s := inplace_sort g1 tx in
+  tx_other s = tx_other tx /\
+  Permutation (tx_in tx) (tx_in s) /\ Permutation (tx_out tx) (tx_out s) /\
+  bip69_ordered s /\ is_sorted s = true.
+Proof. exact inplace_perm_sorted'. Qed.
+Print Assumptions C18_inplace_perm_sorted.
 
 (* the hypotheses are satisfiable: insertion sort meets the contract, and a concrete transaction *)
 Example C18_contract_satisfiable : sort_contract isort.
